@@ -25,6 +25,7 @@ type ReplayResult struct {
 	Panic       string   `json:"panic"`
 	Obs         []ObsVal `json:"obs"`
 	Aborted     string   `json:"aborted"`
+	Hung        bool     `json:"hung"`
 	MissingVars []string `json:"missing_vars"`
 }
 
@@ -48,10 +49,19 @@ func (r ReplayResult) Confirms(v Violation) (bool, string) {
 		}
 		return false, "no native panic"
 	}
+	if v.Label == "blocked" {
+		if r.Hung {
+			return true, "native run did not return within its deadline (still blocked)"
+		}
+		return false, "native run returned"
+	}
 	for _, f := range r.Failed {
 		if f == v.Label {
 			return true, "native assertion failed: " + f
 		}
+	}
+	if r.Hung && strings.HasPrefix(v.Label, "stops-promptly") {
+		return true, "native run had not returned 20 s after the stop request"
 	}
 	if r.Panic != "" {
 		return false, "native run panicked instead: " + trunc(r.Panic, 300)
